@@ -159,7 +159,19 @@ func (c *Ctx) rulesR3resolver() {
 						continue
 					}
 					ifi, ok := x.Instrs[len(x.Instrs)-1].(*ssa.If)
-					if !ok || !mentionsLogging(ifi.Cond) {
+					if !ok {
+						continue
+					}
+					// a branch on logging, or any branch taken only when logging is on
+					logBranch := mentionsLogging(ifi.Cond)
+					if !logBranch {
+						for _, gg := range guardsOf(x) {
+							if mentionsLogging(gg.Cond) {
+								logBranch = true
+							}
+						}
+					}
+					if !logBranch {
 						continue
 					}
 					// only branches from which the effect is still ahead (x reaches eb)
@@ -169,15 +181,33 @@ func (c *Ctx) rulesR3resolver() {
 					if header != nil && !(header.Dominates(x)) {
 						continue
 					}
-					b0 := canBypass(x.Succs[0], eb, header)
-					b1 := canBypass(x.Succs[1], eb, header)
-					r0 := x.Succs[0] == eb || blockReach(x.Succs[0])[eb]
-					r1 := x.Succs[1] == eb || blockReach(x.Succs[1])[eb]
-					// asymmetric: one outcome must pass the append, the other may skip it
-					if (b0 != b1) || (r0 != r1) {
+					// can the append still be reached from this outcome within the same iteration
+					// (without going round through the loop header)?
+					reachSame := func(from *ssa.BasicBlock) bool {
+						seen := map[*ssa.BasicBlock]bool{}
+						var dfs func(y *ssa.BasicBlock) bool
+						dfs = func(y *ssa.BasicBlock) bool {
+							if y == eb {
+								return true
+							}
+							if seen[y] || (header != nil && y == header) {
+								return false
+							}
+							seen[y] = true
+							for _, z := range y.Succs {
+								if dfs(z) {
+									return true
+								}
+							}
+							return false
+						}
+						return dfs(from)
+					}
+					r0, r1 := reachSame(x.Succs[0]), reachSame(x.Succs[1])
+					if r0 != r1 {
 						bad = "the branch on logging at " + c.pos(ifi.Pos()) + " decides whether this append runs"
-						if ifi.Pos() == token.NoPos && len(x.Instrs) > 1 {
-							bad = "a branch on logging in block " + fmt.Sprint(x.Index) + " decides whether this append runs"
+						if ifi.Pos() == token.NoPos {
+							bad = "a branch taken only when logging is on (block " + fmt.Sprint(x.Index) + ") decides whether this append runs"
 						}
 					}
 				}
@@ -1264,145 +1294,153 @@ func (c *Ctx) rulesR3pub() {
 	}
 }
 
-func (c *Ctx) rulesR3misc() {
-	c.rule("C13.gracectx", "the grace-period timer of handlerLoop is not derived from the parent context: that context is already canceled when the grace period starts, a timer derived from it fires at once and cuts the state-based disposal (Disposing state, RegisterDisposal handlers) short")
-	hl := c.fnOpt(pm + ":Machine.handlerLoop")
-	fCP := c.field(pm, "Machine", "ctxParent")
-	if hl != nil && fCP != nil {
-		n := 0
-		for _, b := range hl.Blocks {
-			for _, ins := range b.Instrs {
-				call, ok := ins.(*ssa.Call)
-				if !ok {
-					continue
+func (c *Ctx) rulesR3misc(only string) {
+	if only == "C13" {
+		c.rule("C13.gracectx", "the grace-period timer of handlerLoop is not derived from the parent context: that context is already canceled when the grace period starts, a timer derived from it fires at once and cuts the state-based disposal (Disposing state, RegisterDisposal handlers) short")
+		hl := c.fnOpt(pm + ":Machine.handlerLoop")
+		fCP := c.field(pm, "Machine", "ctxParent")
+		if hl != nil && fCP != nil {
+			n := 0
+			for _, b := range hl.Blocks {
+				for _, ins := range b.Instrs {
+					call, ok := ins.(*ssa.Call)
+					if !ok {
+						continue
+					}
+					fo := calleeObj(&call.Call)
+					if fo == nil || fo.Pkg() == nil || fo.Pkg().Path() != "context" || (fo.Name() != "WithTimeout" && fo.Name() != "WithDeadline" && fo.Name() != "WithCancel") {
+						continue
+					}
+					n++
+					fromParent := flowsFrom(call.Call.Args[0], func(x ssa.Value) bool { return loadOfField(x) == fCP })
+					c.check(!fromParent, "C13.gracectx", fmt.Sprintf("handlerLoop: context#%d is not a child of the parent context", n), call.Pos(), "derived from Machine.ctxParent, which is done by the time this code runs")
 				}
-				fo := calleeObj(&call.Call)
-				if fo == nil || fo.Pkg() == nil || fo.Pkg().Path() != "context" || (fo.Name() != "WithTimeout" && fo.Name() != "WithDeadline" && fo.Name() != "WithCancel") {
-					continue
-				}
-				n++
-				fromParent := flowsFrom(call.Call.Args[0], func(x ssa.Value) bool { return loadOfField(x) == fCP })
-				c.check(!fromParent, "C13.gracectx", fmt.Sprintf("handlerLoop: context#%d is not a child of the parent context", n), call.Pos(), "derived from Machine.ctxParent, which is done by the time this code runs")
+			}
+			if n < 1 {
+				c.undecided("C13.gracectx: handlerLoop creates no grace context")
 			}
 		}
-		if n < 1 {
-			c.undecided("C13.gracectx: handlerLoop creates no grace context")
-		}
 	}
-	c.rule("C06.close", "processSubscriptions (Machine and NetworkMachine) closes every channel its collectors returned, unconditionally: the collectors have already removed those bindings from the indexes Subscriptions.dispose walks, so a skipped close (e.g. 'disposal will do it') leaves the waiter blocked forever")
-	nc := 0
-	for _, k := range []string{pm + ":Machine.processSubscriptions", prpc + ":NetworkMachine.processSubscriptions"} {
-		f := c.fnOpt(k)
-		if f == nil {
-			continue
-		}
-		for _, b := range f.Blocks {
-			for _, ins := range b.Instrs {
-				call, ok := ins.(*ssa.Call)
-				if !ok {
-					continue
-				}
-				isClose := calleeName(&call.Call) == "closeSafe"
-				if bi, ok := call.Call.Value.(*ssa.Builtin); ok && bi.Name() == "close" {
-					isClose = true
-				}
-				if !isClose {
-					continue
-				}
-				nc++
-				bad := ""
-				for _, g := range guardsOf(b) {
-					cond, _ := stripNot(g.Cond)
-					if bo, ok := cond.(*ssa.BinOp); ok && (bo.Op == token.LSS || bo.Op == token.GTR) {
-						continue // range bound
+	if only == "C06" {
+		c.rule("C06.close", "processSubscriptions (Machine and NetworkMachine) closes every channel its collectors returned, unconditionally: the collectors have already removed those bindings from the indexes Subscriptions.dispose walks, so a skipped close (e.g. 'disposal will do it') leaves the waiter blocked forever")
+		nc := 0
+		for _, k := range []string{pm + ":Machine.processSubscriptions", prpc + ":NetworkMachine.processSubscriptions"} {
+			f := c.fnOpt(k)
+			if f == nil {
+				continue
+			}
+			for _, b := range f.Blocks {
+				for _, ins := range b.Instrs {
+					call, ok := ins.(*ssa.Call)
+					if !ok {
+						continue
 					}
-					bad = render(g.Cond)
-				}
-				// an early return inside the closing loop
-				if h := loopHeaderOf(b); h != nil {
-					for _, x := range f.Blocks {
-						if h.Dominates(x) && blockReach(x)[h] && len(x.Instrs) > 0 {
-							if ifi, ok := x.Instrs[len(x.Instrs)-1].(*ssa.If); ok && x != h {
-								for _, sx := range x.Succs {
-									if !blockReach(sx)[h] && sx != h && !h.Dominates(sx) {
-										bad = "loop exit on " + render(ifi.Cond)
-									} else if len(sx.Instrs) > 0 {
-										if _, isRet := sx.Instrs[len(sx.Instrs)-1].(*ssa.Return); isRet && h.Dominates(sx) && !blockReach(sx)[h] {
-											bad = "early return on " + render(ifi.Cond)
+					isClose := calleeName(&call.Call) == "closeSafe"
+					if bi, ok := call.Call.Value.(*ssa.Builtin); ok && bi.Name() == "close" {
+						isClose = true
+					}
+					if !isClose {
+						continue
+					}
+					nc++
+					bad := ""
+					for _, g := range guardsOf(b) {
+						cond, _ := stripNot(g.Cond)
+						if bo, ok := cond.(*ssa.BinOp); ok && (bo.Op == token.LSS || bo.Op == token.GTR) {
+							continue // range bound
+						}
+						bad = render(g.Cond)
+					}
+					// an early return inside the closing loop
+					if h := loopHeaderOf(b); h != nil {
+						for _, x := range f.Blocks {
+							if h.Dominates(x) && blockReach(x)[h] && len(x.Instrs) > 0 {
+								if ifi, ok := x.Instrs[len(x.Instrs)-1].(*ssa.If); ok && x != h {
+									for _, sx := range x.Succs {
+										if !blockReach(sx)[h] && sx != h && !h.Dominates(sx) {
+											bad = "loop exit on " + render(ifi.Cond)
+										} else if len(sx.Instrs) > 0 {
+											if _, isRet := sx.Instrs[len(sx.Instrs)-1].(*ssa.Return); isRet && h.Dominates(sx) && !blockReach(sx)[h] {
+												bad = "early return on " + render(ifi.Cond)
+											}
 										}
 									}
 								}
 							}
 						}
 					}
+					c.check(bad == "", "C06.close", fmt.Sprintf("%s closes collected channels unconditionally#%d", k, nc), ins.Pos(), "closing depends on "+bad)
 				}
-				c.check(bad == "", "C06.close", fmt.Sprintf("%s closes collected channels unconditionally#%d", k, nc), ins.Pos(), "closing depends on "+bad)
 			}
 		}
+		if nc < 2 {
+			c.undecided(fmt.Sprintf("C06.close: only %d close sites in processSubscriptions", nc))
+		}
 	}
-	if nc < 2 {
-		c.undecided(fmt.Sprintf("C06.close: only %d close sites in processSubscriptions", nc))
-	}
-	c.rule("C14.net", "NetworkMachine.updateClock reports every applied clock update to the tracers (TransitionInit, TransitionStart, TransitionEnd unconditionally): ticks can move without the active set changing (Multi re-activation, off/on merged into one diff), and a history bound to the mirror must record them")
-	uc := c.fnOpt(prpc + ":NetworkMachine.updateClock")
-	if uc != nil {
-		nt := 0
-		for _, m := range []string{"TransitionInit", "TransitionStart", "TransitionEnd"} {
-			for i, s := range c.sitesIn(uc, "iface:Tracer."+m) {
-				nt++
-				bad := ""
-				for _, g := range guardsOf(s.Block()) {
-					cond, _ := stripNot(g.Cond)
-					if bo, ok := cond.(*ssa.BinOp); ok && (bo.Op == token.LSS || bo.Op == token.GTR) {
-						isIdx := false
-						valueTree(bo, 3, func(x ssa.Value) {
-							if ph, ok := x.(*ssa.Phi); ok && ph.Comment == "rangeindex" {
-								isIdx = true
+	if only == "C14" {
+		c.rule("C14.net", "NetworkMachine.updateClock reports every applied clock update to the tracers (TransitionInit, TransitionStart, TransitionEnd unconditionally): ticks can move without the active set changing (Multi re-activation, off/on merged into one diff), and a history bound to the mirror must record them")
+		uc := c.fnOpt(prpc + ":NetworkMachine.updateClock")
+		if uc != nil {
+			nt := 0
+			for _, m := range []string{"TransitionInit", "TransitionStart", "TransitionEnd"} {
+				for i, s := range c.sitesIn(uc, "iface:Tracer."+m) {
+					nt++
+					bad := ""
+					for _, g := range guardsOf(s.Block()) {
+						cond, _ := stripNot(g.Cond)
+						if bo, ok := cond.(*ssa.BinOp); ok && (bo.Op == token.LSS || bo.Op == token.GTR) {
+							isIdx := false
+							valueTree(bo, 3, func(x ssa.Value) {
+								if ph, ok := x.(*ssa.Phi); ok && ph.Comment == "rangeindex" {
+									isIdx = true
+								}
+							})
+							if isIdx {
+								continue
 							}
-						})
-						if isIdx {
-							continue
 						}
+						bad = render(g.Cond)
 					}
-					bad = render(g.Cond)
+					c.check(bad == "", "C14.net", fmt.Sprintf("updateClock calls %s%s unconditionally", m, nth(i)), s.Pos(), "only under "+bad)
 				}
-				c.check(bad == "", "C14.net", fmt.Sprintf("updateClock calls %s%s unconditionally", m, nth(i)), s.Pos(), "only under "+bad)
+			}
+			if nt < 3 {
+				c.undecided(fmt.Sprintf("C14.net: only %d tracer calls in updateClock", nt))
 			}
 		}
-		if nt < 3 {
-			c.undecided(fmt.Sprintf("C14.net: only %d tracer calls in updateClock", nt))
-		}
 	}
-	c.rule("C17.full", "every history backend decides its Changed allow/block list from the FULL machine-time diff of the transition (TimeAfter.DiffSince(TimeBefore)), not from the tracked-only vectors: a block-listed state need not be tracked, and then its ticks are invisible in the tracked diff and transitions that must be filtered out get records")
-	fTA := c.field(pm, "Transition", "TimeAfter")
-	fTB := c.field(pm, "Transition", "TimeBefore")
-	nd := 0
-	for _, f := range c.Funcs {
-		if topFunc(f).Pkg == nil || f.Name() != "TransitionEnd" || f.Parent() != nil {
-			continue
-		}
-		rel := relPkg(topFunc(f).Pkg.Pkg.Path())
-		if len(rel) < len("pkg/history") || rel[:len("pkg/history")] != "pkg/history" {
-			continue
-		}
-		for i, s := range c.sitesIn(f, "method:NonZeroStates") {
-			nd++
-			// receiver chain: ToIndex(DiffSince(a, b), names)
-			var ds *ssa.Call
-			valueTree(s.Common().Args[0], 6, func(x ssa.Value) {
-				if call, ok := x.(*ssa.Call); ok && calleeName(&call.Call) == "DiffSince" && ds == nil {
-					ds = call
-				}
-			})
-			good := false
-			if ds != nil && len(ds.Call.Args) == 2 {
-				good = loadOfField(ds.Call.Args[0]) == fTA && loadOfField(ds.Call.Args[1]) == fTB
+	if only == "C17" {
+		c.rule("C17.full", "every history backend decides its Changed allow/block list from the FULL machine-time diff of the transition (TimeAfter.DiffSince(TimeBefore)), not from the tracked-only vectors: a block-listed state need not be tracked, and then its ticks are invisible in the tracked diff and transitions that must be filtered out get records")
+		fTA := c.field(pm, "Transition", "TimeAfter")
+		fTB := c.field(pm, "Transition", "TimeBefore")
+		nd := 0
+		for _, f := range c.Funcs {
+			if topFunc(f).Pkg == nil || f.Name() != "TransitionEnd" || f.Parent() != nil {
+				continue
 			}
-			c.check(good, "C17.full", fmt.Sprintf("%s: changed-states list%s comes from TimeAfter.DiffSince(TimeBefore)", funcKey(f), nth(i)), s.Pos(), "the list of changed states is not computed from the transition's full time vectors")
+			rel := relPkg(topFunc(f).Pkg.Pkg.Path())
+			if len(rel) < len("pkg/history") || rel[:len("pkg/history")] != "pkg/history" {
+				continue
+			}
+			for i, s := range c.sitesIn(f, "method:NonZeroStates") {
+				nd++
+				// receiver chain: ToIndex(DiffSince(a, b), names)
+				var ds *ssa.Call
+				valueTree(s.Common().Args[0], 6, func(x ssa.Value) {
+					if call, ok := x.(*ssa.Call); ok && calleeName(&call.Call) == "DiffSince" && ds == nil {
+						ds = call
+					}
+				})
+				good := false
+				if ds != nil && len(ds.Call.Args) == 2 {
+					good = loadOfField(ds.Call.Args[0]) == fTA && loadOfField(ds.Call.Args[1]) == fTB
+				}
+				c.check(good, "C17.full", fmt.Sprintf("%s: changed-states list%s comes from TimeAfter.DiffSince(TimeBefore)", funcKey(f), nth(i)), s.Pos(), "the list of changed states is not computed from the transition's full time vectors")
+			}
 		}
-	}
-	if nd < 1 {
-		c.undecided("C17.full: no NonZeroStates call in the history tracers")
+		if nd < 1 {
+			c.undecided("C17.full: no NonZeroStates call in the history tracers")
+		}
 	}
 }
 
@@ -1499,7 +1537,26 @@ func (c *Ctx) rulesR3bounds() {
 					}
 					if call, ok := other.(*ssa.Call); ok {
 						if bi, ok := call.Call.Value.(*ssa.Builtin); ok && bi.Name() == "len" && call.Call.Args[0] == x {
-							upper = true
+							// what the guard establishes on the path to the access must be idx < len (strict)
+							_, neg := stripNot(g.Cond)
+							holds := g.Pol != neg // truth of cb on this path
+							op := cb.Op
+							if cb.Y == idx { // len OP idx  ->  idx OP' len
+								switch op {
+								case token.LSS:
+									op = token.GTR
+								case token.GTR:
+									op = token.LSS
+								case token.LEQ:
+									op = token.GEQ
+								case token.GEQ:
+									op = token.LEQ
+								}
+							}
+							switch {
+							case op == token.LSS && holds, op == token.GEQ && !holds:
+								upper = true
+							}
 						}
 					}
 				}
@@ -1510,5 +1567,336 @@ func (c *Ctx) rulesR3bounds() {
 	}
 	if n < 8 {
 		c.undecided(fmt.Sprintf("C20.bounds: only %d caller-indexed accesses found in Time's methods", n))
+	}
+}
+
+func (c *Ctx) rulesR3helpers() {
+	c.rule("C20.sel", "no function of pkg/helpers builds a reflect.Select case table with the same channel in two cases: one of them stands where another channel was meant (WaitForErrAny listed the timeout timer twice and never watched WhenErr, so an errored machine was reported only at the timeout)")
+	c.rule("C20.tries", "no retry loop in pkg/helpers is bounded by min(n, 1): it runs at most once, and not at all for n <= 0 (the 'try at least once' loops of EvalGetter / EvalSetter need max)")
+	const ph = "pkg/helpers"
+	ns, nl := 0, 0
+	for _, f := range c.Funcs {
+		if topFunc(f).Pkg == nil || relPkg(topFunc(f).Pkg.Pkg.Path()) != ph {
+			continue
+		}
+		// reflect.SelectCase{Chan: reflect.ValueOf(x)} stores
+		var chans []ssa.Value
+		var poss []token.Pos
+		for _, b := range f.Blocks {
+			for _, ins := range b.Instrs {
+				st, ok := ins.(*ssa.Store)
+				if !ok {
+					continue
+				}
+				fl := fieldOf(st.Addr)
+				if fl == nil || fl.Name() != "Chan" {
+					continue
+				}
+				if nt := namedOf(fieldOwnerOf(st.Addr)); nt == nil || nt.Obj().Name() != "SelectCase" {
+					continue
+				}
+				call, ok := st.Val.(*ssa.Call)
+				if !ok || calleeName(&call.Call) != "ValueOf" || len(call.Call.Args) != 1 {
+					continue
+				}
+				x := call.Call.Args[0]
+				if mi, ok := x.(*ssa.MakeInterface); ok {
+					x = mi.X
+				}
+				// entries filled in a loop are one store executed many times: not a duplicate
+				if blockReach(b)[b] {
+					continue
+				}
+				chans = append(chans, x)
+				poss = append(poss, ins.Pos())
+			}
+		}
+		if len(chans) >= 2 {
+			ns++
+			dup := ""
+			var pos = f.Pos()
+			for i := range chans {
+				for j := i + 1; j < len(chans); j++ {
+					if chans[i] == chans[j] {
+						dup, pos = render(chans[i]), poss[j]
+					}
+				}
+			}
+			c.check(dup == "", "C20.sel", funcKey(f)+": select case table has distinct channels", pos, "two cases receive from the same channel "+dup)
+		}
+		// loop bounded by min(n, 1)
+		for _, b := range f.Blocks {
+			for _, ins := range b.Instrs {
+				call, ok := ins.(*ssa.Call)
+				if !ok {
+					continue
+				}
+				bi, ok := call.Call.Value.(*ssa.Builtin)
+				if !ok || bi.Name() != "min" {
+					continue
+				}
+				hasOne := false
+				for _, a := range call.Call.Args {
+					if k, ok := constInt(a); ok && k == 1 {
+						hasOne = true
+					}
+				}
+				if !hasOne || call.Referrers() == nil {
+					continue
+				}
+				asBound := false
+				for _, r := range *call.Referrers() {
+					if bo, ok := r.(*ssa.BinOp); ok && (bo.Op == token.LSS || bo.Op == token.GTR) {
+						asBound = true
+					}
+				}
+				if !asBound {
+					continue
+				}
+				nl++
+				c.fail("C20.tries", funcKey(f)+": retry loop bound is not min(n, 1)", call.Pos(), "the loop runs min(n, 1) times: never more than once and not at all for n <= 0")
+			}
+		}
+	}
+	c.ok("C20.sel", fmt.Sprintf("%d reflect.Select case tables in pkg/helpers checked", ns), token.NoPos, "pairwise comparison of the channels")
+	c.ok("C20.tries", fmt.Sprintf("%d loops bounded by min(n,1) in pkg/helpers", nl), token.NoPos, "scan of min() calls used as loop bounds")
+	if ns < 1 {
+		c.undecided("C20.sel: no reflect.Select case table found in pkg/helpers")
+	}
+}
+
+func (c *Ctx) rulesR3batch3(only string) {
+	// C16
+	if only == "C16" {
+		c.rule("C16.cache", "Client.TxIndex memoizes hits only: every value stored in txCache is the position of a record found by the scan (records keep arriving, a memoized miss would answer -1 for a transition that has arrived since, while a linear scan finds it)")
+		c.rule("C16.mut", "ScrollToMutTxState (jump to the next transition that touched a state) consults all three sets of the parsed record — StatesAdded, StatesRemoved and the called states: a state deactivated by a relation is only in StatesRemoved")
+		if ti := c.fnOpt(pd + "/server:Client.TxIndex"); ti != nil {
+			n := 0
+			for _, b := range ti.Blocks {
+				for _, ins := range b.Instrs {
+					mu, ok := ins.(*ssa.MapUpdate)
+					if !ok {
+						continue
+					}
+					if fl := loadOfField(mu.Map); fl == nil || fl.Name() != "txCache" {
+						continue
+					}
+					n++
+					hit := false
+					if bo, ok := mu.Value.(*ssa.BinOp); ok && bo.Op == token.ADD {
+						if ph, ok := bo.X.(*ssa.Phi); ok && ph.Comment == "rangeindex" {
+							hit = true
+						}
+					}
+					c.check(hit, "C16.cache", fmt.Sprintf("TxIndex: txCache store#%d memoizes a found position", n), ins.Pos(), "stores "+render(mu.Value)+", which can be the miss value")
+				}
+			}
+			if n < 1 {
+				c.undecided("C16.cache: TxIndex no longer writes txCache")
+			}
+		}
+		if sm := c.fnOpt(pd + ":Debugger.ScrollToMutTxState"); sm != nil {
+			seen := map[string]bool{}
+			var visit func(f *ssa.Function)
+			visit = func(f *ssa.Function) {
+				for _, a := range f.AnonFuncs {
+					visit(a)
+				}
+				for _, b := range f.Blocks {
+					for _, ins := range b.Instrs {
+						if v, ok := ins.(ssa.Value); ok {
+							if fl := fieldOf(v); fl != nil {
+								seen[fl.Name()] = true
+							}
+						}
+						if ci, ok := ins.(ssa.CallInstruction); ok && calleeName(ci.Common()) == "CalledStateNames" {
+							seen["called"] = true
+						}
+					}
+				}
+			}
+			visit(sm)
+			c.check(seen["StatesAdded"] && seen["StatesRemoved"] && seen["called"], "C16.mut", "ScrollToMutTxState looks at added, removed and called states", sm.Pos(),
+				fmt.Sprintf("consulted: StatesAdded %v, StatesRemoved %v, called %v", seen["StatesAdded"], seen["StatesRemoved"], seen["called"]))
+		}
+	}
+	// C18.before
+	if only == "C18" {
+		c.rule("C18.before", "NetworkMachine.updateClock diffs the new active set against the PUBLISHED one (ActiveStates / activeStates), not against the previous clock: on a (re)handshake the clock has already been overwritten by the hello, so a clock-based 'before' equals the new state, the diff is empty and no FooState/FooEnd pipe handler runs — every target piped from the mirror stays stale")
+		if uc := c.fnOpt(prpc + ":NetworkMachine.updateClock"); uc != nil {
+			fAS := c.field(prpc, "NetworkMachine", "activeStates")
+			n := 0
+			for i, s := range c.sitesIn(uc, pm+":StatesDiff") {
+				n++
+				fromPublished := false
+				for _, a := range s.Common().Args {
+					if derives(a, func(x ssa.Value) bool {
+						if call, ok := x.(*ssa.Call); ok {
+							if c.callMatches(&call.Call, prpc+":NetworkMachine.ActiveStates") {
+								return true
+							}
+							if fAS != nil && isAtomicLoadOf(call, fAS) {
+								return true
+							}
+						}
+						return false
+					}) {
+						fromPublished = true
+					}
+				}
+				c.check(fromPublished, "C18.before", fmt.Sprintf("updateClock: StatesDiff%s compares with the published active set", nth(i)), s.Pos(), "neither operand derives from ActiveStates()/activeStates: the before-side is rebuilt from something else")
+			}
+			if n < 2 {
+				c.undecided("C18.before: updateClock has fewer than two StatesDiff calls")
+			}
+		}
+	}
+	// C15
+	if only == "C15" {
+		c.rule("C15.loopmax", "the fork loop of NormalizingPoolState bounds a counter that STARTS at the number of workers already tracked by Max (for ii := len(existing); … ii < Max): restarted from zero the Max term no longer accounts for existing workers and a second normalisation round over a partially filled pool forks past Max")
+		c.rule("C15.addr", "in pkg/node the LocalAddr of an args struct is never filled from workerInfo.publicAddr and PublicAddr never from workerInfo.localAddr: Supervisor.workers is keyed by the local address, a health error reported under the public one is not found, not counted and the sick worker is never killed")
+		if np := c.fnOpt("pkg/node:Supervisor.NormalizingPoolState"); np != nil {
+			fMax := c.field("pkg/node", "Supervisor", "Max")
+			n := 0
+			var visit func(f *ssa.Function)
+			visit = func(f *ssa.Function) {
+				for _, a := range f.AnonFuncs {
+					visit(a)
+				}
+				for _, b := range f.Blocks {
+					for _, ins := range b.Instrs {
+						bo, ok := ins.(*ssa.BinOp)
+						if !ok || bo.Op != token.LSS || loadOfField(bo.Y) != fMax {
+							continue
+						}
+						ph, ok := bo.X.(*ssa.Phi)
+						if !ok {
+							continue
+						}
+						n++
+						fromLen := false
+						for _, e := range ph.Edges {
+							if call, ok := e.(*ssa.Call); ok {
+								if bi, ok := call.Call.Value.(*ssa.Builtin); ok && bi.Name() == "len" {
+									fromLen = true
+								}
+							}
+						}
+						c.check(fromLen, "C15.loopmax", fmt.Sprintf("NormalizingPoolState: counter#%d compared with Max starts at the existing worker count", n), ins.Pos(), "the counter compared with Max starts at "+render(ph.Edges[0])+", not at len(existing workers)")
+					}
+				}
+			}
+			visit(np)
+			if n < 1 {
+				c.undecided("C15.loopmax: no loop counter compared with Supervisor.Max in NormalizingPoolState")
+			}
+		}
+		{
+			n := 0
+			for _, f := range c.Funcs {
+				if topFunc(f).Pkg == nil || relPkg(topFunc(f).Pkg.Pkg.Path()) != "pkg/node" {
+					continue
+				}
+				for _, b := range f.Blocks {
+					for _, ins := range b.Instrs {
+						st, ok := ins.(*ssa.Store)
+						if !ok {
+							continue
+						}
+						fl := fieldOf(st.Addr)
+						if fl == nil || (fl.Name() != "LocalAddr" && fl.Name() != "PublicAddr") {
+							continue
+						}
+						src := loadOfField(st.Val)
+						if src == nil {
+							continue
+						}
+						n++
+						bad := (fl.Name() == "LocalAddr" && src.Name() == "publicAddr") || (fl.Name() == "PublicAddr" && src.Name() == "localAddr")
+						c.check(!bad, "C15.addr", fmt.Sprintf("%s: %s#%d is filled from the matching worker address", funcKey(f), fl.Name(), n), ins.Pos(), fl.Name()+" is filled from workerInfo."+src.Name())
+					}
+				}
+			}
+			if n < 1 {
+				c.undecided("C15.addr: no LocalAddr/PublicAddr filled from workerInfo in pkg/node")
+			}
+		}
+	}
+	// C19 / C02
+	if only == "C02" {
+		c.rule("C02.req", "Schema.Parse normalises Remove and Add only: it never rewrites State.Require (a declared Require that Parse silently drops — e.g. because the state is also in Add — is no longer enforced, and ErrNetwork{Add: Exception, Require: Exception} can stay active without Exception)")
+		if sp := c.fnOpt(pm + ":Schema.Parse"); sp != nil {
+			fReq := c.field(pm, "State", "Require")
+			bad := ""
+			pos := sp.Pos()
+			for _, w := range writesOfFieldIn(sp, fReq) {
+				bad, pos = w.Kind+" to State.Require", w.Instr.Pos()
+			}
+			// Field stores on a struct value (state is a copy): FieldAddr on an Alloc of State
+			for _, b := range sp.Blocks {
+				for _, ins := range b.Instrs {
+					if st, ok := ins.(*ssa.Store); ok {
+						if fl := fieldOf(st.Addr); fl == fReq {
+							bad, pos = "assign to State.Require", ins.Pos()
+						}
+					}
+				}
+			}
+			c.check(bad == "", "C02.req", "Schema.Parse leaves Require as declared", pos, bad)
+		}
+	}
+	// C20.async
+	if only == "C20" {
+		c.rule("C20.async", "helpers.EvAddAsync reports what happened: once the wait channel of the awaited state has closed it returns true, it does not re-read the machine's momentary state (a Multi state that removes itself in its own final handler is inactive again by then, and a delivered result would be reported as a failure)")
+		if ea := c.fnOpt("pkg/helpers:EvAddAsync"); ea != nil {
+			n := 0
+			for _, b := range ea.Blocks {
+				for _, ins := range b.Instrs {
+					bo, ok := ins.(*ssa.BinOp)
+					if !ok || bo.Op != token.EQL {
+						continue
+					}
+					ex, ok := bo.X.(*ssa.Extract)
+					if !ok || ex.Index != 0 {
+						continue
+					}
+					sel, ok := ex.Tuple.(*ssa.Select)
+					if !ok {
+						continue
+					}
+					k, ok := constInt(bo.Y)
+					if !ok || int(k) >= len(sel.States) {
+						continue
+					}
+					st := sel.States[k]
+					if call, isCall := st.Chan.(*ssa.Call); isCall && calleeName(&call.Call) == "Done" {
+						continue
+					}
+					// the case of the wait channel: its body returns the constant true
+					for _, r := range *bo.Referrers() {
+						ifi, ok := r.(*ssa.If)
+						if !ok {
+							continue
+						}
+						body := ifi.Block().Succs[0]
+						for _, in2 := range body.Instrs {
+							if ret, ok := in2.(*ssa.Return); ok {
+								n++
+								good := false
+								for _, v := range retVals(ret) {
+									if bv, isK := constBool(v); isK && bv {
+										good = true
+									}
+								}
+								c.check(good, "C20.async", "EvAddAsync returns true once the awaited channel closed", ret.Pos(), "returns "+render(retVals(ret)[0])+" instead of the constant true")
+							}
+						}
+					}
+				}
+			}
+			if n < 1 {
+				c.undecided("C20.async: wait-channel case of EvAddAsync not found")
+			}
+		}
 	}
 }
